@@ -11,6 +11,8 @@ import Props.C07
 #print axioms SpyneModel.Props.C07.definitions_unique
 #print axioms SpyneModel.Props.C07.wsdl_closed
 #print axioms SpyneModel.Props.C07.prefixes_injective
+#print axioms SpyneModel.Props.C07.prefix_search_finds_free
+#print axioms SpyneModel.Props.C07.prefixes_injective_any_initial
 #print axioms SpyneModel.Props.C07.ops_exactly_once
 #print axioms SpyneModel.Props.C07.hashseed_witness
 #print axioms SpyneModel.Props.C07.layout_witness
@@ -18,3 +20,5 @@ import Props.C07
 #print axioms SpyneModel.Props.C07.porttype_witness
 #print axioms SpyneModel.Props.C07.fault_namespace_witness
 #print axioms SpyneModel.Props.C07.message_dedup_witness
+#print axioms SpyneModel.Props.C07.handler_lookup_witness_last
+#print axioms SpyneModel.Props.C07.handler_lookup_witness
